@@ -39,27 +39,99 @@ def determinism(build, seed, props, n, worker_counts=(1, 4)):
     return bad, total
 
 
+def hashes_in_fresh_interpreter(build, seed, pid, n, hashseed):
+    """per-seed result hashes computed by a fresh interpreter under another PYTHONHASHSEED"""
+    code = ("import json,sys; sys.path.insert(0, %r); from lesim import driver; from lesim.driver import Build, run_batch\n"
+            "b = Build.__new__(Build); b.dir = %r; b.flavours = ()\n"
+            "st = run_batch(%r, b, %d, %d, 'quick', 3, chunk=max(1, %d // 7))\n"
+            "print(json.dumps(st.get('hashes', {})))\n") % (driver.SIM, build.dir, pid, seed, n, n)
+    p = subprocess.run([sys.executable, "-c", code], env=dict(os.environ, PYTHONHASHSEED=str(hashseed), PYTHONPATH=driver.SIM), capture_output=True, text=True)
+    if p.returncode != 0:
+        raise RuntimeError(p.stderr[-2000:])
+    return {int(k): v for k, v in json.loads(p.stdout.strip().splitlines()[-1]).items()}
+
+
+def fidelity(build, seed, n=60):
+    """fault-free plans executed fully interposed (seeded shuffle, cookie streams with short reads, heap fill)
+    and in pure pass-through mode must give the same operation results"""
+    from .driver import Ctx, case_world
+    from .core import canon, strip_volatile
+    bad = []
+    total = 0
+    ctx = Ctx(build, "fid", tag="fid")
+    try:
+        ex = ctx.executor("asan")
+        for pid in [p for p in ("C01", "C07", "C11", "C12", "C13") if p in available_props()]:
+            mod = load_prop(pid)
+            for i in range(n):
+                world = case_world(mod, seed, i, "quick")
+                plans = mod.build_plans(world)
+                for k, plan in enumerate(plans[:3]):
+                    a = dict(plan, cfg=dict(plan.get("cfg", {}), shuffle=True, dtype_unknown=True, short_reads=3, fill=0xA5, passthrough=False), id="a")
+                    b = dict(plan, cfg=dict(plan.get("cfg", {}), passthrough=True), id="b")
+                    ra, rb = ex.run(a), ex.run(b)
+                    total += 1
+                    va = canon(strip_volatile({"ops": ra.get("ops"), "tasks": ra.get("tasks"), "fatal": ra.get("fatal")}))
+                    vb = canon(strip_volatile({"ops": rb.get("ops"), "tasks": rb.get("tasks"), "fatal": rb.get("fatal")}))
+                    if va != vb:
+                        bad.append({"property": pid, "index": i, "plan": k})
+    finally:
+        ctx.close()
+    return bad, total
+
+
+def write_report(name, obj):
+    d = os.path.join(VERIF, "reports")
+    os.makedirs(d, exist_ok=True)
+    with open(os.path.join(d, name), "w") as f:
+        json.dump(obj, f, indent=1, sort_keys=True)
+
+
 def setup_main(seed):
     t0 = time.time()
     flavours = ("asan", "tsan", "plain")
     with Build(flavours) as build:
         log("setup: executors built in %.1fs" % build.build_s)
         props = available_props()
-        bad, total = determinism(build, seed, props, 40)
+        bad, total = determinism(build, seed, props, 24)
+        fbad, ftotal = fidelity(build, seed, n=12)
     if bad:
         log("setup: NONDETERMINISTIC seeds: %s" % json.dumps(bad))
         return 2
-    log("setup: determinism ok (%d executions over %s) in %.1fs" % (total, props, time.time() - t0))
+    if fbad:
+        log("setup: interposed and pass-through executions differ: %s" % json.dumps(fbad[:5]))
+        return 2
+    log("setup: determinism ok (%d executions over %s), fidelity ok (%d plan pairs) in %.1fs" % (total, props, ftotal, time.time() - t0))
     return 0
 
 
 def determinism_main(seed, tier):
-    n = 300 if tier == "quick" else 3000
+    """large determinism sample: every seed executed at worker counts 1, 4 and 16 in this interpreter and once
+    more by a fresh interpreter under another PYTHONHASHSEED; all per-seed result hashes must be identical.
+    Also the fidelity comparison (interposed vs. pass-through).  Report: /verif/reports/determinism.json"""
+    n = 200 if tier == "quick" else 1500
     flavours = ("asan", "tsan", "plain")
+    t0 = time.time()
+    report = {"seed": seed, "seeds_per_property": n, "worker_counts": [1, 4, 16], "other_pythonhashseed": 424242, "properties": {}}
+    rc = 0
     with Build(flavours) as build:
-        bad, total = determinism(build, seed, available_props(), n, worker_counts=(1, 4, 16))
-    print(json.dumps({"executions": total, "nondeterministic": bad}))
-    return 2 if bad else 0
+        for pid in available_props():
+            nn = n if pid != "C18" else max(20, n // 8)
+            bad, total = determinism(build, seed, [pid], nn, worker_counts=(1, 4, 16))
+            ref = run_batch(pid, build, seed, nn, "quick", 2).get("hashes", {})
+            other = hashes_in_fresh_interpreter(build, seed, pid, nn, 424242)
+            hs_bad = [i for i in ref if ref[i] != other.get(i)]
+            report["properties"][pid] = {"seeds": nn, "executions": total + 2 * nn, "nondeterministic_across_worker_counts": bad.get(pid, []), "nondeterministic_across_hashseed": hs_bad[:10]}
+            if bad or hs_bad:
+                rc = 2
+        fbad, ftotal = fidelity(build, seed, n=40 if tier == "quick" else 300)
+        report["fidelity"] = {"plan_pairs": ftotal, "differences": fbad[:10]}
+        if fbad:
+            rc = 2
+    report["wall_s"] = round(time.time() - t0, 1)
+    write_report("determinism.json", report)
+    print(json.dumps(report)[:3000])
+    return rc
 
 
 def selftest_main(seed, which=None):
@@ -99,6 +171,32 @@ def selftest_main(seed, which=None):
                 print("SELFTEST mutant %s: %s" % (name, "caught by " + ",".join(caught) if caught else "MISSED"))
                 if not caught:
                     rc = 1
+        finally:
+            shutil.rmtree(scratch, ignore_errors=True)
+    # independently seeded breaking changes: evaluated against the commit they were written for
+    for d in sorted(glob.glob(os.path.join(VERIF, "seeded", "S*"))):
+        name = os.path.basename(d)
+        if which and which not in name:
+            continue
+        with open(os.path.join(d, "meta.json")) as f:
+            meta = json.load(f)
+        base = meta["base_commit"].split()[0]
+        pid = meta["property"]
+        scratch = tempfile.mkdtemp(prefix="lesim-seed.")
+        try:
+            a = subprocess.run("git -C %s archive %s lib include util | tar -x -C %s" % (driver.REPO, base, scratch), shell=True, capture_output=True, text=True)
+            b = subprocess.run(["patch", "-p1", "-s", "-d", scratch, "-i", os.path.join(d, "patch.diff")], capture_output=True, text=True)
+            if a.returncode != 0 or b.returncode != 0:
+                print("SELFTEST seeded %s: cannot prepare sources: %s %s" % (name, a.stderr[-200:], b.stdout[-200:]))
+                rc = 2
+                continue
+            r = subprocess.run([os.path.join(VERIF, "bin", "lesim-check"), pid, "quick"], env=dict(os.environ, REPO=scratch, LESIM_NO_EVIDENCE="1"), capture_output=True, text=True)
+            if r.returncode == 1 and "VIOLATION property=%s" % pid in r.stdout:
+                cls = [l.strip() for l in r.stdout.splitlines() if l.strip().startswith("class=")]
+                print("SELFTEST seeded %s: caught by %s (%s)" % (name, pid, cls[0][:80] if cls else ""))
+            else:
+                print("SELFTEST seeded %s: MISSED by %s (rc %d)" % (name, pid, r.returncode))
+                rc = 1 if rc == 0 else rc
         finally:
             shutil.rmtree(scratch, ignore_errors=True)
     return rc
